@@ -85,6 +85,20 @@ Definition func_get1 (x : list T) (A : list (core T)) (a b : list T) (z : T) (sk
   func_get1_rows x A a b z skip_out (basis_rows x A a b).
 Definition func_get (X : list (list T)) (A : list (core T)) (a b : list T) (z : T) (skip_out : bool) : list T :=
   map (fun x => func_get1 x A a b z skip_out) X.
+(* resolution of the optional arguments of func_get (a=None, b=None, skip_out=None in the signature):
+     if a is None: a = -1;  if skip_out is None: skip_out = False
+     if b is None: b = 1;   if skip_out is None: skip_out = False
+     if skip_out is None: skip_out = True
+   i.e. an explicit flag is always honoured; without a flag, points are skipped iff both bounds were given *)
+Definition get_skip {B} (a b : option B) (skip : option bool) : bool :=
+  match skip with
+  | Some s => s
+  | None => match a, b with Some _, Some _ => true | _, _ => false end
+  end.
+Definition func_get_opt (X : list (list T)) (A : list (core T)) (a b : option (list T)) (z : T)
+    (skip : option bool) : list T :=
+  func_get X A (match a with Some l => l | None => repeat fm1 (length A) end)
+               (match b with Some l => l | None => repeat 1 (length A) end) z (get_skip a b skip).
 (* custom basis: funcs[k](x).T[:, :n_k]; the rows are the values the user's functions returned *)
 Definition func_get_custom (X : list (list T * list (list T))) (A : list (core T)) (a b : list T) (z : T)
     (skip_out : bool) : list T :=
